@@ -154,6 +154,8 @@ def run_pool(ctx, module, prop):
             shutil.rmtree(d, ignore_errors=True)
         items += [(sc2, ch) for _k, ch in found]
     ctx.pmap(module, "real_trace_batch", items, chunk=1, prop=prop)
+    if prop == "C11":
+        ctx.pmap(module, "real_kill_batch", [(k, how, n) for n, (k, how) in enumerate((k, h) for k in realtier.KILL_SCRIPTS for h in ("cancel", "timeout"))], chunk=1, prop=prop)
     if prop == "C13":
         ctx.pmap(module, "real_output_batch", ["big-stderr-first", "big-stdout-first", "interleaved", "small-nonzero"], chunk=1, prop=prop)
         ctx.pmap(module, "real_kill_batch", [(k, how, n) for n, (k, how) in enumerate((k, h) for k in realtier.KILL_SCRIPTS for h in ("cancel", "timeout"))], chunk=1, prop=prop)
@@ -176,7 +178,7 @@ def replay_pool(case, prop):
         from mc import realtier
 
         acc = Acc()
-        realtier.kill_batch(acc, [(case["script"], case["how"], case["n"])])
+        realtier.kill_batch(acc, [(case["script"], case["how"], case["n"])], prop=prop)
         return acc.violations
     if case.get("kind") == "real-output":
         from mc import realtier
